@@ -1,5 +1,6 @@
 # self-validation battery (see runner.py): mutants must be reported under the named rule, neutral rewrites must stay silent
 MUTANTS = [
+    {'name': 'revert: own slur/tuplet lists', 'revert': 'its own slur/tuplet lists', 'expect': '|SHARE-copy|'},
     {'name': 'DaCapo copied into the unfolded part', 'file': 'partitura/score.py', 'old': '                            ToCoda,\n                            DaCapo,\n                            DalSegno,', 'new': '                            ToCoda,\n                            DalSegno,', 'expect': 'EXCL'},
     {'name': 'copies not recorded in o_map', 'file': 'partitura/score.py', 'old': '                    o_map[o] = o_copy\n', 'new': '', 'expect': 'REFS'},
     {'name': 'grace links not registered', 'file': 'partitura/score.py', 'old': '        self._ref_attrs.extend(["grace_next", "grace_prev"])', 'new': '        self._ref_attrs.extend(["grace_next"])', 'expect': 'REFS'},
